@@ -44,6 +44,10 @@ def inline(rng, W, depth=0, allow_ref=True, named=None):
             if named is not None and rng.random() < 0.35:
                 if named and rng.random() < 0.5:
                     parts.append('<ref name="%s"/>' % rng.choice(named))
+                elif rng.random() < 0.2:          # used before it is defined (the definition follows at once)
+                    nm = "n%d" % (len(named) + 1)
+                    named.append(nm)
+                    parts.append('<ref name="%s"/> %s <ref name="%s">%s</ref>' % (nm, W.some(rng, 1, 2), nm, inline(rng, W, depth + 2, False)))
                 else:
                     nm = "n%d" % (len(named) + 1)
                     named.append(nm)
@@ -162,8 +166,8 @@ def frag(rng, W, depth=0):
         pre = rng.choice(["*", "#", "**", "*#", ":", ";", ":*", "#:", "***", ";:"])
         return "\n" + "\n".join(pre[:rng.randint(1, len(pre))] + " " + frag(rng, W, d + 1) for _ in range(rng.randint(1, 7))) + "\n"
     if r < 0.44:
-        rows = rng.choice([1, 1, 2, 3, 5, 26]) if rng.random() < 0.9 else 40
-        cols = rng.choice([1, 1, 2, 3, 4, 16]) if rng.random() < 0.9 else 31
+        rows = rng.choice([1, 1, 2, 2, 3, 5]) if rng.random() < 0.93 else rng.choice([26, 26, 40])
+        cols = rng.choice([1, 1, 2, 2, 3, 4]) if rng.random() < 0.93 else rng.choice([16, 16, 31])
         out = ["\n{|" + attrs(rng)]
         if rng.random() < 0.2:
             out.append("|+" + frag(rng, W, d + 2))
@@ -244,7 +248,7 @@ def adversarial(rng):
             text = text[:i] + rng.choice(["<", ">", "|", "{|", "|}", "[[", "]]", "''", "\n", "=", "</div>", "<div>", "<ref>", "</ref>", "{{", "}}", "\n*", "\n|-\n", "<br>"]) + text[i:]
         else:
             text = text[:i] + text[i:j][::-1] + text[j:]
-    return text[:6000]
+    return text[:4000]
 
 
 # hand-written seeds that reach the individual passes (always run first)
